@@ -72,7 +72,9 @@ def main():
     envp = ""
     if a.via_worktree:
         rc, out = sh("git diff -- yowsup", cwd=wt)
-        if out.strip() != open(os.path.join(dest, "patch.diff")).read().strip():
+        def body(txt):
+            return [l for l in txt.splitlines() if (l.startswith("+") or l.startswith("-")) and not l.startswith(("+++", "---"))]
+        if body(out) != body(open(os.path.join(dest, "patch.diff")).read()):
             print("worktree does not hold exactly the patch")
             return 2
         rc, out = sh("git rev-parse HEAD", cwd=wt)
